@@ -397,6 +397,120 @@ func runCanon(cfg *common.Config, rec *common.Recorder, idx uint64, rng *common.
 	if rec.WantSample() {
 		rec.Sample(map[string]interface{}{"value": v.String(), "canonical": common.Hex(want)})
 	}
+	if rng.Chance(1, 3) {
+		canonElemViews(rec, idx, rng)
+	}
+}
+
+// canonElemViews: "any capability-free struct" includes the struct view of a
+// list element (List.Struct(i)), whose data section is 0, 1, 2, 4 or 8 bytes
+// for primitive lists (the documented list upgrade rule).  Its canonical form
+// is that of a struct holding the element as its first field.
+func canonElemViews(rec *common.Recorder, idx uint64, rng *common.RNG) {
+	et := []int{ref.ETVoid, ref.ETByte1, ref.ETByte2, ref.ETByte4, ref.ETByte8, ref.ETPtr, ref.ETComposite}[rng.Intn(7)]
+	n := 1 + rng.Intn(5)
+	var lv *ref.V
+	exp := make([]*ref.V, n)
+	switch et {
+	case ref.ETVoid:
+		lv = ref.NewDataList(et, n, nil)
+		for i := range exp {
+			exp[i] = ref.NewStruct(0, 0)
+		}
+	case ref.ETPtr:
+		el := make([]*ref.V, n)
+		for i := range el {
+			switch rng.Intn(3) {
+			case 0:
+				el[i] = ref.Null
+			case 1:
+				el[i] = ref.NewText(fmt.Sprintf("t%d", rng.Intn(1000)))
+			default:
+				c := ref.NewStruct(1, 0)
+				copy(c.Data, rng.Bytes(8))
+				el[i] = c
+			}
+			exp[i] = ref.NewStruct(0, 1)
+			exp[i].Ptrs[0] = el[i]
+		}
+		lv = ref.NewPtrList(el)
+	case ref.ETComposite:
+		dw, pw := rng.Intn(3), rng.Intn(2)
+		el := make([]*ref.V, n)
+		for i := range el {
+			c := ref.NewStruct(dw, pw)
+			if !rng.Chance(1, 4) {
+				copy(c.Data, rng.Bytes(dw*8+1))
+			}
+			if pw > 0 && rng.Chance(1, 2) {
+				c.Ptrs[0] = ref.NewText("x")
+			}
+			el[i] = c
+			exp[i] = c
+		}
+		lv = ref.NewComposite(dw, pw, el)
+	default:
+		sz := ref.ElemBytes(et)
+		data := rng.Bytes(n*sz + 1)[:n*sz]
+		for i := 0; i < n; i++ {
+			if rng.Chance(1, 4) {
+				for j := 0; j < sz; j++ {
+					data[i*sz+j] = 0
+				}
+			}
+			exp[i] = ref.NewStruct(1, 0)
+			copy(exp[i].Data, data[i*sz:(i+1)*sz])
+		}
+		lv = ref.NewDataList(et, n, data)
+	}
+	rootv := ref.NewStruct(0, 1)
+	rootv.Ptrs[0] = lv
+	segs := ref.RandomPlan(rng).Encode(rootv)
+	input := map[string]interface{}{"value": rootv.String(), "segments": common.SegsHex(segs), "view": "List.Struct(i) of root pointer 0"}
+	root, _, err := load(segs)
+	if err != nil {
+		rec.Inconclusive("canon/elemview: could not load a reference-encoded value: " + err.Error())
+		return
+	}
+	lp, err := root.Struct().Ptr(0)
+	if err != nil {
+		rec.Inconclusive("canon/elemview: root pointer: " + err.Error())
+		return
+	}
+	l := lp.List()
+	if l.Len() != n {
+		rec.Inconclusive("canon/elemview: list length differs from the reference value")
+		return
+	}
+	for i := 0; i < n; i++ {
+		want, _ := ref.Canonical(exp[i])
+		var got []byte
+		var cerr error
+		p := common.Guard(func() { got, cerr = capnp.Canonicalize(l.Struct(i)) })
+		rec.Count("canonicalize_calls", 1)
+		rec.Count(fmt.Sprintf("elemview_et%d", et), 1)
+		input["element"] = i
+		if p != nil {
+			rec.Violate("panic/"+common.TopLibFrame(p.Stack)+"/canonicalize-elemview", "panic in Canonicalize on the struct view of a list element: "+p.Value, idx, p.Stack, input)
+			return
+		}
+		if cerr != nil {
+			rec.Violate("canonicalize-error/elemview", "Canonicalize failed on the struct view of a list element: "+cerr.Error(), idx, "", input)
+			return
+		}
+		if !bytes.Equal(got, want) {
+			input["got"], input["want"] = common.Hex(got), common.Hex(want)
+			cls := "layout-not-canonical"
+			dv, derr := ref.NewDecoder([][]byte{got}, true).Root()
+			if derr != nil {
+				cls = "invalid-encoding"
+			} else if ref.Equal(dv, exp[i], false) != ref.Yes {
+				cls = "value-changed"
+			}
+			rec.Violate(fmt.Sprintf("canonical-bytes-differ/%s/elemview-et%d", cls, et), "Canonicalize of the struct view of a list element differs from the canonical form of a struct holding that element", idx, "", input)
+			return
+		}
+	}
 }
 
 var _ = errors.New
